@@ -72,6 +72,15 @@ def universe(size):
     a, b = P.EVar(0), P.Symbol('s0')
     S += [P.Instantiate(P.MetaVar(2), frozendict({2: P.Implies(a, b)})), idn(P.Implies(a, P.MetaVar(0))), idn(P.App(b, a)),
           sub1(P.App(P.EVar(1), a), b), sub1(P.Implies(P.EVar(1), P.MetaVar(0)), a), P.Implies(idn(P.Implies(a, b)), P.MetaVar(1))]
+    # variables hidden behind a definition that expands to a bare variable (identity notation, nested, and a 0-ary alias), at
+    # positions where the other side of the equation has the literal element / set variable -- and the written-out twins
+    X0, X1 = P.SVar(0), P.SVar(1)
+    alias_x0 = P.Notation('aliasX0', 0, X0, 'X0!')
+    alias_e0 = P.Notation('aliase0', 0, a, 'x0!')
+    for v, hid in ((X0, idn(X0)), (X0, idn(idn(X0))), (X0, alias_x0()), (X1, idn(X1)), (a, idn(a)), (a, alias_e0()), (P.EVar(1), idn(P.EVar(1)))):
+        S += [P.App(b, hid), P.App(P.MetaVar(0), v)]
+    S += [P.App(b, X0), P.App(b, a), P.Mu(0, P.App(b, idn(X0))), P.Mu(0, P.App(b, X0)), P.Mu(0, P.App(P.MetaVar(0), X0)),
+          P.Exists(0, P.App(b, idn(a))), P.Exists(0, P.App(b, a)), P.Exists(0, P.App(P.MetaVar(0), a))]
     return S
 
 
